@@ -1186,3 +1186,34 @@ M('svd-singular-values-not-scaled-back', 'C16', 'clamps-and-fixed-rule',
   [('contrib/PartialSVDSolver.h', "Vector svals = m_eigs->eigenvalues().cwiseMax(Scalar(0)).cwiseSqrt() * m_op->scale();", "Vector svals = m_eigs->eigenvalues().cwiseMax(Scalar(0)).cwiseSqrt();")], 'singular values of A / s')
 M('svd-operator-scaled-once', 'C16', 'svd-operator-normalised',
   [('contrib/PartialSVDSolver.h', "        y.noalias() = m_mat.transpose() * m_cache;\n        y /= m_scale;\n", "        y.noalias() = m_mat.transpose() * m_cache;\n")], 'A\'A / s: eigenvalues scale with ||A||')
+# ----------------------------------------------------------------------------- C19: Park-Miller congruence (session 4)
+M('lcg-high-mask-one-bit-short', 'C19', 'step-congruent-to-park-miller',
+  [('Util/SimpleRandom.h', "lo += (hi & 0x7FFF) << 16;", "lo += (hi & 0x3FFF) << 16;")], 'bit 14 of the high product is dropped: still in range, no longer 16807*s mod 2^31-1')
+M('lcg-carry-shift-off-by-one', 'C19', 'step-congruent-to-park-miller',
+  [('Util/SimpleRandom.h', "lo += hi >> 15;", "lo += hi >> 16;")], 'bit 15 of the high product is lost')
+M('lcg-second-fold-forgets-increment', 'C19', 'step-congruent-to-park-miller',
+  [('Util/SimpleRandom.h', """    lo += hi >> 15;
+    if (lo > m_max)
+    {
+        lo &= m_max;
+        ++lo;
+    }""", """    lo += hi >> 15;
+    if (lo > m_max)
+    {
+        lo &= m_max;
+    }""")], 'x - 2^31 instead of x - (2^31 - 1): in range, off by one on the folded path only; can return the degenerate state 0')
+M('lcg-other-multiplier', 'C19', 'step-congruent-to-park-miller',
+  [('Util/SimpleRandom.h', "constexpr unsigned int m_a = 16807;           // multiplier", "constexpr unsigned int m_a = 16087;           // multiplier")], 'a transposed digit: a different (worse) generator, every test still passes')
+N('lcg-64-bit-product-two-folds', 'C19',
+  [('Util/SimpleRandom.h', """    lo = m_a * (long) (seed & 0xFFFF);
+    hi = m_a * (long) ((unsigned long) seed >> 16);
+    lo += (hi & 0x7FFF) << 16;
+    if (lo > m_max)
+    {
+        lo &= m_max;
+        ++lo;
+    }
+    lo += hi >> 15;
+    if (lo > m_max)""", """    hi = (unsigned long) m_a * (unsigned long) seed;
+    lo = (hi & m_max) + (hi >> 31);
+    if (lo > m_max)""")], 'the same map written with one 64-bit product and one fold plus the final reduction: must stay silent')
